@@ -14,6 +14,13 @@ Theorem C12_as_number_value : forall (rnd : dec -> option Z) s,
 Proof. exact as_number_spec. Qed.
 Print Assumptions C12_as_number_value.
 
+(* with the reference conversion: the value is the nearest double of the CIF decimal value; None
+   exactly for non-numbers and for magnitudes outside the double range *)
+Theorem C12_as_number_nearest_double : forall s,
+  as_number_bits s = match cif_value s with Some d => nearest_double d | None => None end.
+Proof. exact as_number_bits_value. Qed.
+Print Assumptions C12_as_number_nearest_double.
+
 Theorem C12_as_number_accepts_exactly_cif : forall (rnd : dec -> option Z) s,
   as_number rnd s <> None <-> exists d, cif_value s = Some d /\ rnd d <> None.
 Proof. exact as_number_accepts_exactly_cif. Qed.
